@@ -11,6 +11,8 @@ CONSTANTS
   OutValues <- ValuesAll
   OutKinds <- KindsAll
   MCScopes <- ScopesTwo
+  MCRoutes <- RoutesOne
+  MCExits <- ExitsNo
   Emitting = FALSE
 INVARIANT PContained
 INVARIANT PZeroIff
